@@ -392,8 +392,10 @@ def special_trees():
            M((M((S("a"), I(1))), M((S("b"), I(2)))), (Q(I(1), I(2)), Q(I(3)))),
            M((Q(M((Q(S("deep")), N))), S("v")))]
     for kind in ("Q", "M", "CK", "Q2"):
-        for n in (5, 9, 16):
-            for s in ("a", "a\nb", "a\nb\n", "x y", ""):
+        # every depth up to 20: the indentation of a nested multi-line string runs through every value around the
+        # look-ahead sizes of the input back-ends (a literal block 8 levels deep is indented 16 columns)
+        for n in range(1, 21):
+            for s in ("a", "a\nb", "a\nb\n", "x y", "", "a\n\nb", "line one\nline two\n\n"):
                 out.append(chain(S(s), n, kind))
     return out
 
